@@ -76,7 +76,7 @@ def ordered(rule, key, diff, **kwargs):
 
 def rewrite(rule, key, diff, **kwargs):
     # Переписывает блок игнорируя предыдущее его состояние
-    if not diff[Op.REMOVED]:
+    if not diff[Op.REMOVED] or diff[Op.ADDED] or diff[Op.MOVED] or diff[Op.AFFECTED]:
         yield from default(rule, key, diff, **kwargs)
 
 
